@@ -62,3 +62,14 @@ Fixpoint r_contiguous (s2 : Z) (stp : Z) (outs : list rblk) : Prop :=
   | [] => True
   | o :: t => r_s0x2 o = s2 /\ r_fsd o = stp /\ r_contiguous (s2 + 2 * zlen (r_counts o)) stp t
   end.
+
+(* ---------------- the two claims made for every stage ---------------- *)
+(* the run does not raise and the concatenation of everything emitted is [want] *)
+Definition emits_values {S O} (r : option (S * list (blk O))) (want : list O) : Prop :=
+  exists st outs, r = Some (st, outs) /\ concat (map dat outs) = want.
+(* the run does not raise, the emitted blocks are contiguous with annotations h from sample s on, and
+   therefore pipeline.concat (the concat model) of all of them succeeds and yields one block that starts
+   at s, carries h and holds all the samples *)
+Definition emits_contiguous {S O} (r : option (S * list (blk O))) (h : hdr) (s : Z) : Prop :=
+  exists st outs, r = Some (st, outs) /\ contiguous h s outs /\
+    (outs <> [] -> concat_list outs = Some (mk h s (concat (map dat outs)))).
